@@ -187,7 +187,7 @@ void TCP::sack(const sack_type& edges) {
             stream.write_be(*it);
         }
     }
-    add_option(option(SACK, (uint8_t)value.size(), value.empty() ? 0 : &value[0]));
+    add_option(option(SACK, value.size(), value.empty() ? 0 : &value[0]));
 }
 
 TCP::sack_type TCP::sack() const {
